@@ -80,6 +80,22 @@ pub fn enumerate(w: &World, s: &Spec, d: &mut D) -> Vec<ECase> {
         if !expressible(&name) {
             continue;
         }
+        if let VShape::Struct(_) = &v.shape {
+            // a struct variant is a struct receiver: whatever its field list, it rejects names it does not
+            // declare, literal items, and non-list forms
+            let cls = if v.skip { "struct-variant:skipped" } else { "struct-variant:foreign-items" };
+            add(Syn::List(vec![Node::Item(name.clone(), Syn::List(vec![Node::Item("zzunk".into(), Syn::Lit("3".into(), LK::Int(3)))]))]), cls, true, &mut out);
+            add(Syn::List(vec![Node::Item(name.clone(), Syn::List(vec![Node::Lit("\"stray\"".into(), LK::Str("stray".into()))]))]), cls, true, &mut out);
+            add(
+                Syn::List(vec![Node::Item(
+                    name.clone(),
+                    Syn::List(vec![Node::Item("zza".into(), Syn::Word), Node::Item("zzb".into(), Syn::List(vec![Node::Item("d".into(), Syn::Word)]))]),
+                )]),
+                cls,
+                true,
+                &mut out,
+            );
+        }
         for k in 0..4 {
             let mut st = InputStats::default();
             match &v.shape {
